@@ -81,6 +81,28 @@ type c19CountStr struct{ k int }
 
 func (c *c19CountStr) String() string { c19Rec("!str"); return "cs" }
 
+// c19ReStr: String() makes ONE nested call of the scenario's mocked function (bounded re-entry while the log line is rendered).
+type c19ReStr struct{ k int }
+
+var (
+	c19ReHook  func()
+	c19ReDepth int
+)
+
+func (c *c19ReStr) String() string {
+	if c19ReHook != nil && c19ReDepth == 0 {
+		c19ReDepth++
+		c19Rec("!re{")
+		func() {
+			defer func() { recover() }()
+			c19ReHook()
+		}()
+		c19Rec("}!")
+		c19ReDepth--
+	}
+	return "rs"
+}
+
 type c19CountErr struct{ k int }
 
 func (c *c19CountErr) Error() string { c19Rec("!err"); return "ce" }
@@ -155,6 +177,7 @@ func c19Init() {
 	c19Zoo[15] = struct{}{}
 	c19Zoo[16] = &c19CountStr{}        // String() records an event: fmt runs user code (finding F27)
 	c19Zoo[17] = error(&c19CountErr{}) // Error() records an event
+	c19Zoo[18] = &c19ReStr{}           // String() calls the mocked function once more
 	// the slice/map cycles of finding F13 (fmt recurses without bound): only ever sent in isolated child processes
 	s := []interface{}{nil}
 	s[0] = s
@@ -842,6 +865,15 @@ func c19RunScenario(toks []string, logf *os.File) string {
 	}
 	c := &c19Scn{tgt: toks[2], mock: Create(), recv: &c19S{}, ivar: &c19Impl{}, shape: shape}
 	c19Events, c19Wraps, c19PTags = nil, nil, nil
+	c19ReDepth, c19ReHook = 0, nil
+	switch c.tgt {
+	case "fp":
+		c19ReHook = func() { c19FP(nil, 5) }
+	case "ip":
+		c19ReHook = func() { c.ivar.P(nil, 5) }
+	case "fa":
+		c19ReHook = func() { c19FA(5) }
+	}
 	L := 0
 	logf.Seek(0, 0)
 	var T []string
